@@ -3,14 +3,14 @@
     hand-offs, writer, time passing) with the control steps that AddToxic / UpdateToxic /
     RemoveToxic / InterruptToxic / Run perform on it (Model/Reconf.v). *)
 From TP Require Import Model.Prelude Extracted Model.Toxics Model.Timed Model.Reconf
-     Proofs.StageContract Proofs.LinkInv Proofs.ReconfInv.
+     Model.ReconfRun Proofs.StageContract Proofs.LinkInv Proofs.ReconfInv Proofs.ReconfRunProofs.
 
 (** every single control step - an interrupt landing in any wait of any stage, a stage restarted
     with any data-preserving toxic and any toxicity decision, a stub appended, a queued chunk
     flushed past a removed toxic, the stub spliced out - keeps delivered ++ in flight ++ pending
     equal to the source stream *)
 Theorem C02_control_step : forall l a l',
-  link_ok l -> ctl_ok a -> ctl_step l a = Some l' -> link_ok l' /\ stream l' = stream l.
+  link_ok l -> ctl_ok l a -> ctl_step l a = Some l' -> link_ok l' /\ stream l' = stream l.
 Proof. exact ctl_preserves. Qed.
 Print Assumptions C02_control_step.
 
@@ -19,10 +19,44 @@ Print Assumptions C02_control_step.
     nothing is lost, duplicated, reordered or altered - what the receiver has is a prefix of what
     the sender wrote, and together with what is in flight and pending it is all of it *)
 Theorem C02_no_corruption : forall sigma l l',
-  link_ok l -> Forall mact_ok sigma -> mixed_run l sigma = Some l' ->
+  link_ok l -> run_ok l sigma -> mixed_run l sigma = Some l' ->
   link_ok l' /\ sink_bytes l' ++ flow (l_stubs l') ++ pending l' = stream l.
 Proof. intros sigma l l' H1 H2 H3. destruct (mixed_run_inv sigma l l' H1 H2 H3) as [Ha Hb]. split; [exact Ha|exact Hb]. Qed.
 Print Assumptions C02_no_corruption.
+
+(** histories without attribute writes need no look at the states: it is enough that no hand-off is
+    given up, no timeout toxic is cut out and every toxic started is data-preserving *)
+Theorem C02_static_histories : forall sigma, Forall mact_static_ok sigma -> forall l, run_ok l sigma.
+Proof. exact static_run_ok. Qed.
+Print Assumptions C02_static_histories.
+
+(** an update writes the new attributes into the toxic object the running stage reads, before it
+    interrupts the stage. That write is admitted in every state of every stage, for every new value
+    of the same toxic type - the stage stays well-formed (this is where the bandwidth race of finding
+    F13 was: the fact [bw_cut_uses_tested_rate] is regenerated from toxics/bandwidth.go) *)
+Theorem C02_attribute_write : forall l i tx s,
+  bw_cut_uses_tested_rate = true -> link_ok l -> nth_error (l_stubs l) i = Some s ->
+  same_kind (s_tx s) tx = true -> ctl_ok l (CSetTx i tx).
+Proof. exact setx_ok. Qed.
+Print Assumptions C02_attribute_write.
+
+Theorem C02_bandwidth_cuts_with_the_tested_rate : bw_cut_uses_tested_rate = true.
+Proof. reflexivity. Qed.
+Print Assumptions C02_bandwidth_cuts_with_the_tested_rate.
+
+(** the executable reconfiguration runs that are compared with the real code to the nanosecond
+    (AddToxic / UpdateToxic / RemoveToxic as processes over these control steps, Model/ReconfRun.v)
+    are interleavings of this system, under either resolution of the scheduler's choices and for the
+    guided search over them: the theorems above are about the very runs that are replayed *)
+Theorem C02_executable_runs_are_interleavings : forall pol fuel horizon r r',
+  rrun_quiet pol fuel horizon r = Some r' -> exists sigma, mixed_run (r_l r) sigma = Some (r_l r').
+Proof. exact rrun_quiet_mixed. Qed.
+Print Assumptions C02_executable_runs_are_interleavings.
+
+Theorem C02_searched_runs_are_interleavings : forall fuel horizon obs oc r r',
+  rsearch fuel horizon obs oc r = Some r' -> exists sigma, mixed_run (r_l r) sigma = Some (r_l r').
+Proof. exact rsearch_mixed. Qed.
+Print Assumptions C02_searched_runs_are_interleavings.
 
 (** an interrupted stage writes back what it holds before it returns (the contract of
     CREATING_TOXICS.md), for every built-in toxic in every wait *)
@@ -53,3 +87,13 @@ Example C02_nonvacuous :
                   MCtl (CDelete 1); MCtl (CRestart 0 TNoop true)] = Some l2 /\
     sink_bytes l2 = [1;2;3;4;5;6] /\ length (l_stubs l2) = 1%nat.
 Proof. eexists. eexists. split; [vm_compute; reflexivity|]. split; [vm_compute; reflexivity|]. split; reflexivity. Qed.
+
+(** non-vacuity of the executable process: a latency toxic removed while a chunk sleeps in it and two
+    more are queued: the operation runs to completion, the stub is spliced out, everything arrives *)
+Example C02_executable_nonvacuous :
+  let r0 := rrun_init [(TLatency 100 0, true)] [SWrite 0 [1;2;3]; SWrite 0 [4;5]; SWrite 0 [6]; SClose 500000000] []
+                      [(50000000, ORemove 1 true)] in
+  exists r1, rrun_quiet false 200 1000000000 r0 = Some r1 /\
+    sink_bytes (r_l r1) = [1;2;3;4;5;6] /\ length (l_stubs (r_l r1)) = 1%nat /\ r_ph r1 = PIdle /\
+    map fst (rev (l_trace (r_l r1))) = [50000000; 50000000; 50000000].
+Proof. eexists. split; [vm_compute; reflexivity|]. repeat split; reflexivity. Qed.
